@@ -143,6 +143,9 @@ def run(ctx, rep):
     bad = [s for s in alpha if not (dec["dfa"].accepts(s) or s in tables["Ring"] or s in tables["Branch"])]
     rep.ob("L1", not bad, None, None, loc="selfies/constants.py", construct="index symbols", how="each is an atom / ring / branch symbol of the decoder",
            witness=None if not bad else "index symbols unknown to the decoder: %s" % bad, key="index/emit-in-accept")
+    # what the decoder accepts for a symbol is a function of the symbol and the table in force, not of earlier tables
+    from rules.shared import check_history_independence
+    check_history_independence(ctx, rep, "L1")
     # ---- L3 decoder-side printer ⊆ encoder-side reader
     check_rereadable(ctx, rep, dec)
     rep.floor("L1", 6)
